@@ -28,9 +28,9 @@
   * `c12rev_le_post`: soundness in one direction for EVERY history (writes included): if `B`
     is a post-fixpoint of the equations at the inputs of every request of the history, every
     answer is a subset of `B` (programs without `FallbackImmediate` and in the body language of
-    `Model/Cycle.lean`: `NoAdd` excludes `add` AND the value-controlled `gate`, for which that
-    model has no reference `lfp`; gated programs are tied to salsa by the differential runs and
-    checked against the Kleene oracle of the harness only).  No
+    `Model/Cycle.lean`: `NoAdd` excludes the non-monotone `add` only — the value-controlled
+    `gate` is part of that language, `toCycleExpr` maps gates to gates, so this and the next
+    three statements cover the gated programs of flavour 6).  No
     stale value can exceed such a bound; kf2's stale value is a too SMALL one.
   * `c12rev_le_lfp`: one revision on a fresh database, any sequence of requests: every answer
     is a subset of `lfp`.
@@ -40,7 +40,9 @@
   * `c12rev_exact_if_closed` = the two together: refinement of `Model/Cycle.lean` per certified
     run — in one revision on a fresh database an answer `v` whose reachable part of the table
     is closed is `lfp`, hence (`c12rev_agrees_with_cycle_if_closed`) equal to what the engine of
-    `Model/Cycle.lean` answers (`c12_full_history`) whenever that answers with a value.
+    `Model/Cycle.lean` answers (`c12_full_gated_history`) whenever that answers with a value.
+    (`closedOn` / `reachFrom` take the callees under the finalised values: an edge behind a gate
+    counts iff the gate is open in the final table.)
     `svdriver cyclerev-cert` prints the certificate (`certB`: `R` = the nodes reachable from the
     request) for every answer; it held for ALL 399 056 value answers of the first revisions of
     300 000 generated cases (flavours 0, 4, 2), so each of those answers is `lfp` by theorem.
@@ -145,9 +147,10 @@ theorem c12rev_exact_if_closed (P : Prog) (hNF : NoFb P) (hNA : NoAdd P)
   fresh_exact_of_closed P hNF hNA inputs qs q v hv R hqR hc hf
 
 /-- … hence the answer of the engine of `Model/Cycle.lean` after the same requests, whenever
-    that engine answers with a value (`c12_full_history`: it answers `lfp` or panics). -/
+    that engine answers with a value (`c12_full_gated_history`: it answers `lfp` or panics; the
+    former hypothesis `8 * P.n < 200` is no longer needed). -/
 theorem c12rev_agrees_with_cycle_if_closed (P : Prog) (hNF : NoFb P) (hNA : NoAdd P)
-    (hW : (toCycle P).Wf) (hn : 8 * P.n < 200) (inputs : List (Nat × Nat)) (qs : List Nat)
+    (hW : (toCycle P).Wf) (inputs : List (Nat × Nat)) (qs : List Nat)
     (q v : Nat) (hq : q < P.n)
     (hv : (CycleRev.get P (run P (St.init P.n inputs) (qs.map .get)) q).1 = .value v)
     (R : List Nat) (hqR : q ∈ R)
@@ -158,11 +161,12 @@ theorem c12rev_agrees_with_cycle_if_closed (P : Prog) (hNF : NoFb P) (hNA : NoAd
             (toCycle P) (envOfVals (inputs.map (·.1))) q).1 = .value w k) :
     v = w := by
   have h1 := fresh_exact_of_closed P hNF hNA inputs qs q v hv R hqR hc hf
-  have h2 := SalsaVerif.Props.C12.c12_full_history (toCycle P) (envOfVals (inputs.map (·.1))) hW
-    (noFallback_toCycle hNF) (by rw [toCycle_n]; exact hn) qs q (by rw [toCycle_n]; exact hq)
+  have h2 := SalsaVerif.Props.C12.c12_full_gated_history (toCycle P)
+    (envOfVals (inputs.map (·.1))) hW (noFallback_toCycle hNF) qs q (by rw [toCycle_n]; exact hq)
   rw [hw] at h2
-  rcases h2 with ⟨k', h2⟩ | h2 | h2
+  rcases h2 with ⟨k', h2⟩ | h2 | h2 | h2
   · injection h2 with h2 _; rw [h1, h2]
+  · cases h2
   · cases h2
   · cases h2
 
@@ -187,13 +191,25 @@ example : (3 : Nat) = Cycle.lfp (toCycle kf2P) (envOfVals [3, 6]) 1 :=
 /-- … and the certificate FAILS for the stale answer of the witness (it detects the finding). -/
 example : certB kf2P (run kf2P (St.init 3 [(3, 0), (6, 0)]) kf2Ops) 0 2 = false := by decide
 
-/-- value-controlled gates (outside `NoAdd`; model = salsa byte for byte on 500 000 generated gated
+/-- value-controlled gates (inside `NoAdd`; model = salsa byte for byte on 500 000 generated gated
     cases): on `gatedP` with inputs 4, 8, 32 the model answers the least fixpoint
     `q1 = 8 ∪ 1 ∪ 32 = 41`, `q0 = 4 ∪ 41 = 45` from either entry (three resp. two iterations). -/
 example :
     outputs gatedP (St.init 2 [(4, 0), (8, 0), (32, 0)]) [.get 0, .get 1] = [.value 45, .value 41] ∧
     outputs gatedP (St.init 2 [(4, 0), (8, 0), (32, 0)]) [.get 1, .get 0] = [.value 41, .value 45] := by
   decide
+
+/-- … the certificate holds for both answers, so (`c12rev_exact_if_closed`, now covering gates)
+    they are the least fixpoint of the gated equations. -/
+example : NoFb gatedP ∧ NoAdd gatedP ∧ (toCycle gatedP).Wf ∧ ¬ (toCycle gatedP).NoGate := by decide
+
+example : (45 : Nat) = Cycle.lfp (toCycle gatedP) (envOfVals [4, 8, 32]) 0 :=
+  c12rev_exact_if_closed gatedP (by decide) (by decide) [(4, 0), (8, 0), (32, 0)] [] 0 45
+    (by decide) [0, 1] (by decide) (by decide) (by decide)
+
+example : (41 : Nat) = Cycle.lfp (toCycle gatedP) (envOfVals [4, 8, 32]) 1 :=
+  c12rev_exact_if_closed gatedP (by decide) (by decide) [(4, 0), (8, 0), (32, 0)] [0] 1 41
+    (by decide) [1, 0] (by decide) (by decide) (by decide)
 
 /-- `c12rev_le_post` with writes: `B` = everything (255) is a post-fixpoint at all inputs. -/
 example : PostHist kf2P (fun _ => 255) (St.init 3 [(3, 0), (6, 0)]) kf2Ops :=
